@@ -5,9 +5,10 @@ import Dino.DynamicsDrv
 
 * `lsadv αs βs γs`, `tabadv aEx aIm bEx bIm` — clock advances of the two integrator factories;
 * `check keep x` — the structural predicate and the `(0,0)` coefficient of one flattened leaf;
-* `swexplicit | swimplicit | swinverse` — the shallow-water equation set over the operator
-  matrices of a real `Grid` (the 19 configuration tokens of `dyn`, of which only the horizontal
-  record is used);
+* `swexplicit | swimplicit | swinverse` — the shallow-water equation set `Dino.DynamicsSW` over the
+  operator matrices of a real `Grid` (the 19 configuration tokens of `dyn`, of which only the
+  horizontal record is used), followed by `densities Ω orography|_ refPotential`
+  (protocol marker: sw-densities);
 * `traj` — a model trajectory: `k` steps of an integrator of `Dino.Imex` applied to a
   primitive-equation class of `Dino.Dynamics`, each followed by the step filters of
   `Dino.Filters`, with the invariant evaluated after every step;
@@ -51,34 +52,7 @@ def parseScheme? (s : String) : Option (Scheme K) :=
       pure (.tableau (nzK K) ⟨aex, aim, bex, bim⟩)
   | _ => none
 
-/-! ### filters on states -/
-
-def chunk {α : Type} (sz : Nat) : Nat → List α → List (List α)
-  | 0, _ => []
-  | n + 1, xs => xs.take sz :: chunk sz n (xs.drop sz)
-
-/-- the filter `_make_filter_fn(scaling)` on a column of `n` levels of modal shape `(ms0, ms1)` -/
-def filterCol {nm : Nat} (ms0 ms1 : Nat) (scal : List K) (x : List (Vec nm K)) : List (Vec nm K) :=
-  let data := (x.map (·.data)).flatten
-  let out := (Filters.filterLeaf [scal.length] scal ([x.length, ms0, ms1], data)).2
-  (chunk (ms0 * ms1) x.length out).map fun d => ⟨d⟩
-
-/-- `tree_map(rescale, state)` for a `StateWithTime`: the clock is the scalar leaf `()` -/
-def filterState {nm : Nat} (ms0 ms1 : Nat) (scal : List K) (s : StateWithTime K (Vec nm K)) :
-    StateWithTime K (Vec nm K) :=
-  let f := filterCol K ms0 ms1 scal
-  { state :=
-      { vorticity := f s.state.vorticity
-        divergence := f s.state.divergence
-        temperatureVariation := f s.state.temperatureVariation
-        logSurfacePressure := (f [s.state.logSurfacePressure]).headD s.state.logSurfacePressure
-        tracers := mapTracers f s.state.tracers }
-    simTime := ((Filters.filterLeaf [scal.length] scal ([], [s.simTime])).2).headD s.simTime }
-
-def filterSW {nm : Nat} (ms0 ms1 : Nat) (scal : List K) (s : SW.State (Vec nm K)) :
-    SW.State (Vec nm K) :=
-  let f := filterCol K ms0 ms1 scal
-  { vorticity := f s.vorticity, divergence := f s.divergence, potential := f s.potential }
+/-! ### filters on states: `Invariants.filterPE` / `Invariants.filterSW` (the objects of the theorems) -/
 
 /-- a step filter: the scaling of `exponential_step_filter` / `horizontal_diffusion_step_filter`,
  or the Robert–Asselin strength -/
@@ -141,21 +115,21 @@ def reportTM {nm : Nat} (keep : List Bool) : TM (StateWithTime K (Vec nm K)) →
   | .val s => report K keep s
   | _ => "value-error"
 
-def swOk {nm : Nat} (keep : List Bool) (s : SW.State (Vec nm K)) : Bool :=
+def swOk {nm : Nat} (keep : List Bool) (s : DynamicsSW.State (Vec nm K)) : Bool :=
   leafOk K keep s.vorticity && leafOk K keep s.divergence && leafOk K keep s.potential
 
-def parseSW? {n : Nat} (s : String) : Option (SW.State (Vec n K)) :=
+def parseSW? {n : Nat} (s : String) : Option (DynamicsSW.State (Vec n K)) :=
   match s.splitOn "|" with
   | [z, d, p] => do
       let z ← parseCol? K z; let d ← parseCol? K d; let p ← parseCol? K p
       pure { vorticity := z, divergence := d, potential := p }
   | _ => none
 
-def renderSW {n : Nat} (s : SW.State (Vec n K)) : String :=
+def renderSW {n : Nat} (s : DynamicsSW.State (Vec n K)) : String :=
   "|".intercalate [renderCol K s.vorticity, renderCol K s.divergence, renderCol K s.potential]
 
 /-- `ok@ζ₀₀@δ₀₀@φ₀₀` -/
-def reportSW {nm : Nat} (keep : List Bool) : TM (SW.State (Vec nm K)) → String
+def reportSW {nm : Nat} (keep : List Bool) : TM (DynamicsSW.State (Vec nm K)) → String
   | .val s => "@".intercalate [renderBool (swOk K keep s),
       renderVec (s.vorticity.map fun v => coef00 v.data),
       renderVec (s.divergence.map fun v => coef00 v.data),
@@ -179,14 +153,16 @@ def iterate {U : Type} (step : U → U) (rep : U → String) : Nat → U → Lis
 def liftFilter {V : Type} (g : V → V) : TM V → TM V := TM.lift g
 
 def swEqs? {nm nn : Nat} (h : HOps K (MV K nm) (NV K nn)) :
-    List String → Option (SW.Eqs K (MV K nm) (NV K nn) × List String)
-  | dr :: omega :: oro :: refp :: rest => do
-      let dr ← parseMat? (K := K) dr
+    List String → Option (DynamicsSW.ShallowWaterEquations K (MV K nm) (NV K nn) × List String)
+  | dens :: omega :: oro :: refp :: rest => do
+      let dens ← parseVec? (K := K) dens
       let omega ← Num.parse? (K := K) omega
       let oro ← if oro = "_" then pure none else (parseVecV? K oro).map some
       let refp ← parseVec? (K := K) refp
-      pure ({ ops := h, densityRatios := dr, angularVelocity := omega, orography := oro,
-              referencePotential := refp }, rest)
+      pure ({ ops := h
+              specs := { densities := dens, radius := h.radius, angularVelocity := omega,
+                         gravityAcceleration := 1 }
+              orography := oro, referencePotential := refp }, rest)
   | _ => none
 
 def runOps {nm nn : Nat} (eq : PrimitiveEquations K (MV K nm) (NV K nn)) :
@@ -197,14 +173,14 @@ def runOps {nm nn : Nat} (eq : PrimitiveEquations K (MV K nm) (NV K nn)) :
       match args with
       | [st] => do
           let s ← parseSW? K st
-          pure (renderSW K (SW.explicitTerms e s))
+          pure (renderSW K (e.explicitTerms s))
       | _ => none
   | "swimplicit" :: rest => do
       let (e, args) ← swEqs? K eq.ops rest
       match args with
       | [st] => do
           let s ← parseSW? K st
-          pure (renderSW K (SW.implicitTerms e s))
+          pure (renderSW K (e.implicitTerms s))
       | _ => none
   | "swinverse" :: rest => do
       let (e, args) ← swEqs? K eq.ops rest
@@ -212,7 +188,7 @@ def runOps {nm nn : Nat} (eq : PrimitiveEquations K (MV K nm) (NV K nn)) :
       | [eta, st] => do
           let eta ← Num.parse? (K := K) eta
           let s ← parseSW? K st
-          pure (renderSW K (SW.implicitInverse e s eta))
+          pure (renderSW K (e.implicitInverse eta s))
       | _ => none
   -- primitive equations: `traj cls scheme dt k filters ms0,ms1 ls keep invtable state [state2]`
   | ["traj", cls, sch, dt, k, flt, ms, ls, keep, invs, st] => do
@@ -225,10 +201,10 @@ def runOps {nm nn : Nat} (eq : PrimitiveEquations K (MV K nm) (NV K nn)) :
       let specs ← parseFilters? K dt eq.ops.radius ls flt
       let e := peImEx cls eq (lookupInv K invs)
       match ms with
-      | [ms0, ms1] =>
+      | [_, _] =>
         let filters : List (TM (StateWithTime K (MV K nm)) → TM (StateWithTime K (MV K nm))) :=
           specs.filterMap fun f => match f with
-            | .scaling sc => some (liftFilter (filterState K ms0 ms1 sc))
+            | .scaling sc => some (liftFilter (filterPE eq.ops sc))
             | .ra _ => none
         let sch ← parseScheme? K sch
         match sch.step e dt with
@@ -251,10 +227,10 @@ def runOps {nm nn : Nat} (eq : PrimitiveEquations K (MV K nm) (NV K nn)) :
       let specs ← parseFilters? K dt eq.ops.radius ls flt
       let e := peImEx cls eq (lookupInv K invs)
       match ms with
-      | [ms0, ms1] =>
+      | [_, _] =>
         let filters : List (LfFilter K (TM (StateWithTime K (MV K nm)))) :=
           specs.map fun f => match f with
-            | .scaling sc => .state (liftFilter (filterState K ms0 ms1 sc))
+            | .scaling sc => .state (liftFilter (filterPE eq.ops sc))
             | .ra r => .ra r
         let step := stepWithFilters (Imex.leapfrog e dt alpha) (filters.map LfFilter.fn)
         let rep := fun (u : TM (StateWithTime K (MV K nm)) × TM (StateWithTime K (MV K nm))) =>
@@ -275,13 +251,13 @@ def runOps {nm nn : Nat} (eq : PrimitiveEquations K (MV K nm) (NV K nn)) :
           let s0 ← parseSW? K st0; let s1 ← parseSW? K st1
           let specs ← parseFilters? K dt eq.ops.radius ls flt
           match ms with
-          | [ms0, ms1] =>
-            let filters : List (LfFilter K (TM (SW.State (MV K nm)))) :=
+          | [_, _] =>
+            let filters : List (LfFilter K (TM (DynamicsSW.State (MV K nm)))) :=
               specs.map fun f => match f with
-                | .scaling sc => .state (liftFilter (filterSW K ms0 ms1 sc))
+                | .scaling sc => .state (liftFilter (filterSW eq.ops sc))
                 | .ra r => .ra r
             let step := stepWithFilters (Imex.leapfrog (SW.imex e) dt alpha) (filters.map LfFilter.fn)
-            let rep := fun (u : TM (SW.State (MV K nm)) × TM (SW.State (MV K nm))) =>
+            let rep := fun (u : TM (DynamicsSW.State (MV K nm)) × TM (DynamicsSW.State (MV K nm))) =>
               reportSW K keep u.1 ++ "&" ++ reportSW K keep u.2
             let (fin, reps) := iterate step rep k (.val s0, .val s1) []
             match fin with
